@@ -2,7 +2,8 @@
     the stated error and byte count, and never panics.
 
     Same model and specification as C06 (Model/Pbcmpl.v as repaired by /repo 815cf27,
-    Spec/PbcmplSpec.v).  Readers are ANY list of non-empty chunks plus a terminal
+    Spec/PbcmplSpec.v).  Readers are ANY finite list of chunks ([chunks_ok]: empty
+    chunks = Reads returning (0, nil) allowed anywhere but at the very end) plus a terminal
     condition [t] (io.EOF or an injected read error, reported after the last chunk or
     together with it), so "a strict prefix of a frame, chunked anyhow, ending in
     io.EOF" and "a read error injected at offset k" are both instances.  Writers are
@@ -10,7 +11,7 @@
     universally quantified and completely arbitrary here (no premise): none of these
     statements depends on what proto.Unmarshal does.  Unbounded in payload length and
     chunking; hypothesis "stream shorter than 2^63 bytes" = Go's int64 count.
-    [fuel]: loop bound of the executable model, any value >= |stream| + 2. *)
+    [fuel]: loop bound of the executable model, any value >= |stream| + number of chunks + 2. *)
 From Coq Require Import ZArith List Bool.
 From Low Require Import Lib.BitSeq Lib.Bytes Model.Pbcmpl Model.LegacyPbcmpl Spec.PbcmplSpec
   Proofs.PbcmplIO Proofs.PbcmplHeader Proofs.PbcmplProofs Proofs.PbcmplMarshal
@@ -26,7 +27,7 @@ Theorem C07_unmarshal_exact : forall (Msg : Type) (dec : list Z -> option Msg) g
   (forall c, 0 < c -> c < grow c) ->
   forall cs t fuel,
   chunks_ok cs -> bytes_ok (concat cs) -> zlen (concat cs) < 2 ^ 63 ->
-  (length (concat cs) + 2 <= fuel)%nat ->
+  (length cs + length (concat cs) + 2 <= fuel)%nat ->
   exists n ver err m cs',
     Unmarshal dec cread grow fuel (cs, t) = Some (n, ver, err, m, (cs', t))
     /\ chunks_ok cs'
@@ -43,7 +44,7 @@ Theorem C07_cut : forall (Msg : Type) (enc : Msg -> list Z) (dec : list Z -> opt
   bytes_ok ver -> bytes_ok (enc m) -> zlen (enc m) < 2 ^ 63 - 32 ->
   0 <= k < 32 + zlen (enc m) ->
   chunks_ok cs -> concat cs = firstn (Z.to_nat k) (frame ver (enc m)) ->
-  (length (concat cs) + 2 <= fuel)%nat ->
+  (length cs + length (concat cs) + 2 <= fuel)%nat ->
   Unmarshal dec cread grow fuel (cs, t)
     = Some (k, (if k <? 32 then [] else ver),
             Some (if k <? 32 then end_err t k EEOF else end_err t (k - 32) EEOF), None, ([], t)).
@@ -62,7 +63,7 @@ Theorem C07_cut_eof : forall (Msg : Type) (enc : Msg -> list Z) (dec : list Z ->
   bytes_ok ver -> bytes_ok (enc m) -> zlen (enc m) < 2 ^ 63 - 32 ->
   0 <= k < 32 + zlen (enc m) ->
   chunks_ok cs -> concat cs = firstn (Z.to_nat k) (frame ver (enc m)) ->
-  (length (concat cs) + 2 <= fuel)%nat ->
+  (length cs + length (concat cs) + 2 <= fuel)%nat ->
   Unmarshal dec cread grow fuel (cs, t)
     = Some (k, (if k <? 32 then [] else ver),
             Some (if (k =? 0) || (k =? 32) then EEOF else EUnexpectedEOF), None, ([], t)).
@@ -78,7 +79,7 @@ Theorem C07_cut_readerr : forall (Msg : Type) (enc : Msg -> list Z) (dec : list 
   bytes_ok ver -> bytes_ok (enc m) -> zlen (enc m) < 2 ^ 63 - 32 ->
   0 <= k < 32 + zlen (enc m) ->
   chunks_ok cs -> concat cs = firstn (Z.to_nat k) (frame ver (enc m)) ->
-  (length (concat cs) + 2 <= fuel)%nat ->
+  (length cs + length (concat cs) + 2 <= fuel)%nat ->
   Unmarshal dec cread grow fuel (cs, t)
     = Some (k, (if k <? 32 then [] else ver), Some (t_err t), None, ([], t)).
 Proof. exact Unmarshal_cut_readerr. Qed.
@@ -91,7 +92,7 @@ Theorem C07_hsize : forall (Msg : Type) (dec : list Z -> option Msg) grow,
   forall cs t fuel,
   chunks_ok cs -> bytes_ok (concat cs) -> zlen (concat cs) < 2 ^ 63 ->
   32 <= zlen (concat cs) -> le_val (firstn 8 (skipn 16 (concat cs))) <> 32 ->
-  (length (concat cs) + 2 <= fuel)%nat ->
+  (length cs + length (concat cs) + 2 <= fuel)%nat ->
   exists cs',
     Unmarshal dec cread grow fuel (cs, t)
       = Some (32, strip_nul (firstn 16 (concat cs)), Some EInvalidHeaderSize, None, (cs', t))
@@ -107,7 +108,7 @@ Theorem C07_bsize : forall (Msg : Type) (dec : list Z -> option Msg) grow,
   chunks_ok cs -> bytes_ok (concat cs) -> zlen (concat cs) < 2 ^ 63 ->
   32 <= zlen (concat cs) -> le_val (firstn 8 (skipn 16 (concat cs))) = 32 ->
   2 ^ 63 <= le_val (firstn 8 (skipn 24 (concat cs))) ->
-  (length (concat cs) + 2 <= fuel)%nat ->
+  (length cs + length (concat cs) + 2 <= fuel)%nat ->
   exists cs',
     Unmarshal dec cread grow fuel (cs, t)
       = Some (32, strip_nul (firstn 16 (concat cs)), Some EInvalidBodySize, None, (cs', t))
@@ -125,7 +126,7 @@ Theorem C07_total : forall (Msg : Type) (dec : list Z -> option Msg) grow,
   (forall c, 0 < c -> c < grow c) ->
   forall cs t fuel,
   chunks_ok cs -> bytes_ok (concat cs) -> zlen (concat cs) < 2 ^ 63 ->
-  (length (concat cs) + 2 <= fuel)%nat ->
+  (length cs + length (concat cs) + 2 <= fuel)%nat ->
   exists n ver err m cs',
     Unmarshal dec cread grow fuel (cs, t) = Some (n, ver, err, m, (cs', t))
     /\ 0 <= n <= zlen (concat cs)
@@ -215,6 +216,27 @@ Theorem C07_op_stream : forall kind s pat t,
   v_stream_model kind (chunks_of pat s, t) = v_stream_spec kind EEOF s t.
 Proof. exact v_stream_model_spec. Qed.
 Print Assumptions C07_op_stream.
+
+Theorem C07_op_chunks : forall kind cs t,
+  chunks_ok cs -> bytes_ok (concat cs) -> zlen (concat cs) < 2 ^ 63 ->
+  v_stream_model kind (cs, t) = v_stream_spec kind EEOF (concat cs) t.
+Proof. exact v_stream_model_chunks. Qed.
+Print Assumptions C07_op_chunks.
+
+(** non-vacuity of "empty chunks": a reader that returns (0, nil) before the first byte,
+    twice at the header/body boundary and once inside the body; the frame comes back, and
+    the same reader cut one byte short reports io.ErrUnexpectedEOF with n = 34 *)
+Example C07_empty_chunks_nonvacuous :
+  let eof := {| t_err := EEOF; t_with_last := true |} in
+  let h := frame_header [49; 46; 48] 3 in
+  chunks_ok [[]; h; []; []; [7]; []; [8; 9]]
+  /\ c_Unmarshal 0 ([[]; h; []; []; [7]; []; [8; 9]], eof)
+       = Some (35, [49; 46; 48], None, Some [7; 8; 9], ([], eof))
+  /\ c_Unmarshal 0 ([[]; h; []; []; [7]; []; [8]], eof)
+       = Some (34, [49; 46; 48], Some EUnexpectedEOF, None, ([], eof))
+  /\ c_Stream 0 ([[]; h; []; []; [7]; []; [8; 9]], eof)
+       = Some ([(35, [49; 46; 48], None, [7; 8; 9], 35); (0, [], Some EEOF, [], 35)], ([], eof)).
+Proof. vm_compute. repeat split; try reflexivity. discriminate. Qed.
 
 Theorem C07_op_readheader : forall s pat t,
   bytes_ok s -> all_pos pat = true -> zlen s < 2 ^ 63 ->
